@@ -714,6 +714,11 @@ fn check_e2e(ctx: &mut Ctx, e: &E2e) -> Outcome {
         };
         let missing: Vec<&String> = want.iter().filter(|w| !got.contains(w)).collect();
         let extra: Vec<&String> = got.iter().filter(|w| !want.contains(w)).collect();
+        // members that are rejected only because the engine gave up on them are the listed finding
+        // (told apart through the hook, with the pattern as the command line gives it)
+        if extra.is_empty() && o.status == 0 && !missing.is_empty() && missing.iter().all(|m| regex_match_error(&c.syntax, &pattern_c, c.icase, m).is_some()) {
+            return fail("C17:regex-engine-gives-up:member-rejected", format!("find {args:?}\nthe engine gives up on {missing:?}: in the language but reported as not matching\nAST {:?}", c.re));
+        }
         return fail(
             format!("C17:e2e:{shape}:{}:{}{}", family_name(&c.syntax), if !missing.is_empty() { "member-rejected" } else { "non-member-accepted" }, if c.re.has_alt() { ":alternation" } else { "" }),
             format!("find {args:?}\nexit {} stderr {:?}\nin the language but not selected: {missing:?}\nselected but not in the language: {extra:?}\nAST {:?}", o.status, lossy(&o.stderr), c.re),
